@@ -207,7 +207,9 @@ def run(ctx):
     reps_n = ctx.n(3, 60)
     for sc in DET_SCENARIOS:
         for i in range(reps_n):
-            base = {"acc_delay_ms": 0, "reject": False, "shake": False, "timeouts": 1.0, **sc}
+            # every script ends through an explicit action, none through a timeout: long timeouts, so that a slow
+            # machine cannot make the quiet and the raising run differ
+            base = {"acc_delay_ms": 0, "reject": False, "shake": False, "timeouts": 8.0, **sc}
             jobs.append(base)
             specs.append(None)
             for kind in ("function", "partial", "object"):
@@ -228,6 +230,10 @@ def run(ctx):
         if "harness_error" in res:
             ctx.diff(["scenario", sc], res["harness_error"], "n/a", "scenario harness failed")
             continue
+        if spec is None and res.get("inconclusive"):
+            ctx.diff(["scenario", sc], res["inconclusive"], "established", "quiet scenario could not establish its association even alone with long timeouts")
+            quiet = None
+            continue
         if spec is None:
             quiet = summary(res)
             qsc = sc
@@ -240,7 +246,9 @@ def run(ctx):
             diffk = [k for k in s if s[k] != quiet[k]]
             ctx.fail(
                 "e2e:raising-notification-handlers-change-exchange:" + spec["kind"],
-                f"script {sc}: with raising {spec['kind']} handlers {diffk} differ: quiet {quiet} raising {s}",
+                f"script {sc}: with raising {spec['kind']} handlers {diffk} differ: quiet {quiet} raising {s} "
+                f"[run info: wall {res.get('wall', 0):.2f} s, rerun alone={res.get('rerun_of') is not None}, inconclusive={res.get('inconclusive')}, "
+                f"thread errors {res.get('thread_errors')}, requestor history {res['req']['hist'][:14]}]",
                 case,
             )
         died = res.get("thread_errors")
